@@ -119,7 +119,8 @@ def _size_fault(x):
 
 
 def _isnum(x):
-    return isinstance(x, (int, float)) and not isinstance(x, bool)
+    # (numpy scalars - float32, float16, int64, uint8 ... - are numbers like any other: their exact value counts)
+    return isinstance(x, (int, float, np.floating, np.integer)) and not isinstance(x, (bool, np.bool_))
 
 
 def analyse(spec):
@@ -304,7 +305,7 @@ def n_cases(tier):
 
 def _limits(rng):
     mn = rng.choice([0, 0, 0, 0.0, 5, 10, 20.5, 0.5, 100, rng.randint(0, 50)])
-    span = rng.choice([1, 10, 100, 250.5, 1000, 1e5, 0.25, rng.randint(1, 5000)])
+    span = rng.choice([1, 10, 100, 250.5, 1000, 1e5, 0.25, rng.randint(1, 5000), 0.1, 260.3, 99.99, 333.3, 0.7, 1e-3])
     mx = mn + span
     if rng.random() < 0.3 and float(mx) == int(mx):
         mx = int(mx)
@@ -386,11 +387,11 @@ def _as_layout(rng, cls, vol, R, C):
         if lay == "omitted":
             return False, None
         if lay == "scalar":
-            return True, flat[0]
+            return True, _np_scalar(rng, flat[0])
         if lay == "tuple":
             return True, {"__tuple__": list(flat)}
         if lay == "array1d":
-            return True, enc(np.array(flat, dtype=float))
+            return True, enc(np.array(flat, dtype=float if rng.random() > 0.2 else np.float32))
         return True, list(flat)
     opts = ["flat_list", "flat_list", "flat_array", "nested_list", "array2d", "array2d"]
     if uniform:
@@ -401,14 +402,26 @@ def _as_layout(rng, cls, vol, R, C):
     if lay == "none":
         return True, None
     if lay == "scalar":
-        return True, flat[0]
+        return True, _np_scalar(rng, flat[0])
     if lay == "flat_list":
         return True, list(flat)
     if lay == "flat_array":
-        return True, enc(np.array(flat, dtype=float))
+        return True, enc(np.array(flat, dtype=float if rng.random() > 0.2 else np.float32))
     if lay == "nested_list":
         return True, [list(row) for row in vol]
-    return True, enc(np.array(vol, dtype=float))
+    return True, enc(np.array(vol, dtype=float if rng.random() > 0.2 else np.float32))
+
+
+def _np_scalar(rng, x):
+    """The one broadcast volume as the caller has it: a Python number, now and then a numpy scalar (encoded)."""
+    r = rng.random()
+    if r < 0.1:
+        return {"__npscalar__": ["float32", float(np.float32(x))]}
+    if r < 0.2:
+        return {"__npscalar__": ["float64", float(x)]}
+    if r < 0.3 and float(x) == int(x) and abs(x) < 2**31:
+        return {"__npscalar__": ["int64", int(x)]}
+    return x
 
 
 _NAMEPOOL = ["water", "glucose", "NaOH", "stock A", "x", "medium.1", "p.A01", "A01", "Wasser/Öl", "lw.column_01"]
